@@ -35,7 +35,7 @@ def dumpTabs (t : Tabs) : String := Id.run do
     let k := a.foldl (fun k x => if x != 0 then k + 1 else k) 0
     if k = 0 then continue
     nf := nf + 1
-    if k > 24 then
+    if k > 300 then
       s := s ++ s!" {f} 999 {k} {(hashTab a).toNat}"
     else
       s := s ++ s!" {f} {k}"
@@ -102,6 +102,7 @@ def modelStep (r : RSt) (name : String) (op : List Nat) : RSt × String :=
   | "ident", [f, sz, fl] => fin (identityMapRegion st0 (w f) (w sz) (w fl)) r
   | "fill", [f, seed] =>
     fin (.ok ((0, 0), { st0 with mem := st0.mem.setFrame f (fun i => w seed * w (2 * i + 1) + w i) })) r
+  | "poke", [f, i, v] => fin (.ok ((0, 0), { st0 with mem := st0.mem.wr f i (w v) })) r
   | "setz", [f, p] => fin (.ok ((0, 0), { st0 with zeroFrame := w f, protect := p != 0 })) r
   | "tmpfail", [b] => fin (.ok ((0, 0), { st0 with tmpFail := b != 0 })) r
   | "rzf", [] => fin (code (reserveZeroedFrame st0)) r
@@ -190,10 +191,12 @@ deriving BEq, Repr
 def leafOf (d : Dump) (root : Nat) (p : Nat) : Leaf := Id.run do
   let mut t := root
   for k in [0, 1, 2] do
+    if let .hashed _ _ := d.frame t then return .huge k   -- opaque (dense data frame used as a table)
     let e := d.rd t (pageIdx p k)
     if !entPresent e then return .absent k
     if k > 0 && entHuge e then return .huge k
     t := entFrame e
+  if let .hashed _ _ := d.frame t then return .huge 3
   return .entry (d.rd t (pageIdx p 3))
 
 /-- table frames reachable from `root` (root included), entry 511 of the root excluded -/
